@@ -64,10 +64,12 @@ def liftb(x):
 
 
 def mk(e):
-    e = z3.simplify(e)
     if z3.is_int_value(e):
         return e.as_long()
-    return SymInt(e)
+    r = SymInt(e)
+    if not r.lin:
+        return r.c
+    return r
 
 
 def mkb(e):
@@ -118,12 +120,117 @@ class SymBool:
         return 'SymBool(%s)' % self.e
 
 
+_ATOMS = {}        # atom id -> (z3 expr, is_derived)   (kept alive: ids stay stable across replays)
+
+
+def _atom(e):
+    "register z3 int expr e as an opaque atom; returns its key"
+    k = e.get_id()
+    if k not in _ATOMS:
+        _ATOMS[k] = (e, e.decl().kind() != z3.Z3_OP_UNINTERPRETED)
+    return k
+
+
+def _decompose(e, mult, lin, const):
+    "accumulate mult * e into (lin, const); handles +, -, unary -, numeral * x; anything else is an atom"
+    if z3.is_int_value(e):
+        return const + mult * e.as_long()
+    k = e.decl().kind()
+    if k == z3.Z3_OP_ADD:
+        for ch in e.children():
+            const = _decompose(ch, mult, lin, const)
+        return const
+    if k == z3.Z3_OP_SUB and e.num_args() == 2:
+        const = _decompose(e.arg(0), mult, lin, const)
+        return _decompose(e.arg(1), -mult, lin, const)
+    if k == z3.Z3_OP_UMINUS:
+        return _decompose(e.arg(0), -mult, lin, const)
+    if k == z3.Z3_OP_MUL and e.num_args() == 2:
+        if z3.is_int_value(e.arg(0)):
+            return _decompose(e.arg(1), mult * e.arg(0).as_long(), lin, const)
+        if z3.is_int_value(e.arg(1)):
+            return _decompose(e.arg(0), mult * e.arg(1).as_long(), lin, const)
+    key = _atom(e)
+    c = lin.get(key, 0) + mult
+    if c:
+        lin[key] = c
+    else:
+        lin.pop(key, None)
+    return const
+
+
+_CTX = z3.main_ctx()
+_CREF = _CTX.ref()
+_INTSORT = z3.IntSort()
+_IVALS = {}
+
+
+def ival(v):
+    "cached z3 numeral"
+    r = _IVALS.get(v)
+    if r is None:
+        r = z3.IntVal(v)
+        if len(_IVALS) < 200000:
+            _IVALS[v] = r
+    return r
+
+
+def _build(lin, const):
+    "z3 expression of a linear form, through the low-level API (z3py's Sum/* spend most of their time coercing)"
+    terms = []      # ArithRef wrappers keep the intermediate ASTs referenced until the sum exists
+    for k, c in lin.items():
+        a = _ATOMS[k][0]
+        if c == 1:
+            terms.append(a)
+        else:
+            arr = (z3.Ast * 2)(ival(c).as_ast(), a.as_ast())
+            terms.append(z3.ArithRef(z3.Z3_mk_mul(_CREF, 2, arr), _CTX))
+    if const or not terms:
+        terms.append(ival(const))
+    if len(terms) == 1:
+        return terms[0]
+    arr = (z3.Ast * len(terms))(*[t.as_ast() for t in terms])
+    return z3.ArithRef(z3.Z3_mk_add(_CREF, len(terms), arr), _CTX)
+
+
+def eval_lin(x, model, cache):
+    "value of a SymInt under a model, computed from its linear form (atom values cached per model)"
+    tot = x.c
+    for k, c in x.lin.items():
+        v = cache.get(k)
+        if v is None:
+            v = model.eval(_ATOMS[k][0], model_completion=True).as_long()
+            cache[k] = v
+        tot += c * v
+    return tot
+
+
+def _mklin(lin, const):
+    if not lin:
+        return const
+    r = SymInt.__new__(SymInt)
+    r.lin = lin
+    r.c = const
+    r._e = None
+    return r
+
+
 class SymInt:
-    "proxy for a python int whose value is the z3 Int expression .e"
-    __slots__ = ('e',)
+    """proxy for a python int.  The value is kept as a linear form  sum(coef * atom) + c  over opaque z3 atoms
+    (variables, quotients, ...); the z3 expression .e is only built when a branch or a query needs it."""
+    __slots__ = ('lin', 'c', '_e')
 
     def __init__(self, e):
-        self.e = e
+        lin = {}
+        self.c = _decompose(e, 1, lin, 0)
+        self.lin = lin
+        self._e = None
+
+    @property
+    def e(self):
+        if self._e is None:
+            self._e = _build(self.lin, self.c)
+        return self._e
 
     @property
     def numerator(self):
@@ -141,6 +248,9 @@ class SymInt:
     def imag(self):
         return 0
 
+    def derived(self):
+        return any(_ATOMS[k][1] for k in self.lin)
+
     def __index__(self):
         raise HarnessError('symbolic int reached a C-level __index__/__int__: %s' % str(self.e)[:200])
 
@@ -150,41 +260,84 @@ class SymInt:
     def __bool__(self):
         return ENGINE.branch(self.e != 0)
 
+    @staticmethod
+    def _parts(o):
+        if isinstance(o, SymInt):
+            return o.lin, o.c
+        if isinstance(o, bool):
+            return None, int(o)
+        if isinstance(o, int):
+            return None, int(o)
+        return False, 0
+
     def __add__(self, o):
-        oe = lift(o)
-        return NotImplemented if oe is None else mk(self.e + oe)
+        ol, oc = self._parts(o)
+        if ol is False:
+            return NotImplemented
+        if ol is None:
+            return _mklin(self.lin, self.c + oc) if oc else self
+        lin = dict(self.lin)
+        for k, c in ol.items():
+            n = lin.get(k, 0) + c
+            if n:
+                lin[k] = n
+            else:
+                del lin[k]
+        return _mklin(lin, self.c + oc)
     __radd__ = __add__
 
+    def __neg__(self):
+        return _mklin({k: -c for k, c in self.lin.items()}, -self.c)
+
     def __sub__(self, o):
-        oe = lift(o)
-        return NotImplemented if oe is None else mk(self.e - oe)
+        ol, oc = self._parts(o)
+        if ol is False:
+            return NotImplemented
+        if ol is None:
+            return _mklin(self.lin, self.c - oc) if oc else self
+        lin = dict(self.lin)
+        for k, c in ol.items():
+            n = lin.get(k, 0) - c
+            if n:
+                lin[k] = n
+            else:
+                del lin[k]
+        return _mklin(lin, self.c - oc)
 
     def __rsub__(self, o):
-        oe = lift(o)
-        return NotImplemented if oe is None else mk(oe - self.e)
+        ol, oc = self._parts(o)
+        if ol is False:
+            return NotImplemented
+        return (-self).__add__(o)
+
+    def _scale(self, k):
+        if k == 0:
+            return 0
+        if k == 1:
+            return self
+        return _mklin({a: c * k for a, c in self.lin.items()}, self.c * k)
 
     def __mul__(self, o):
-        oe = lift(o)
-        if oe is None:
-            return NotImplemented
-        if isinstance(o, SymInt) and not ENGINE.nia:
+        if isinstance(o, SymInt):
+            if ENGINE.nia:
+                return SymInt(self.e * o.e)
             # symbolic x symbolic: realise the derived operand (one containing a quotient) so that
             # the path condition stays linear
-            a, b = self.e, oe
-            if _derived(a) and not _derived(b):
+            a, b = self, o
+            if a.derived() and not b.derived():
                 a, b = b, a
-            return mk(a * ENGINE.realize(b))
-        return mk(self.e * oe)
+            return a._scale(ENGINE.realize(b.e))
+        if isinstance(o, int):
+            return self._scale(int(o))
+        return NotImplemented
     __rmul__ = __mul__
-
-    def __neg__(self):
-        return mk(-self.e)
 
     def __pos__(self):
         return self
 
     def __abs__(self):
-        return mk(z3.If(self.e >= 0, self.e, -self.e))
+        e = self.e
+        return mk(z3.If(e >= 0, e, -e))
 
     def __pow__(self, o, m=None):
         if m is None and isinstance(o, int) and not isinstance(o, bool) and 0 <= o <= 4:
@@ -194,79 +347,85 @@ class SymInt:
             return r
         raise HarnessError('SymInt ** %r' % (o,))
 
-    @staticmethod
-    def _divmod(a, b):
-        "python floor divmod on z3 ints a, b"
-        b = z3.simplify(b)
-        if not z3.is_int_value(b):
-            if ENGINE.nia:
-                if ENGINE.branch(b == 0):
-                    raise ZeroDivisionError('integer division or modulo by zero')
-                if ENGINE.branch(b > 0):
-                    q = a / b
-                else:
-                    q = (-a) / (-b)
-                return q, a - b * q
-            b = z3.IntVal(ENGINE.realize(b))
-        bv = b.as_long()
+    def _divmod_int(self, bv):
+        "python floor divmod of self by the int bv -> (q, r) as python int / SymInt"
         if bv == 0:
             raise ZeroDivisionError('integer division or modulo by zero')
-        ed = exact_div(a, bv)
-        if ed is not None:
-            return ed, z3.IntVal(0)
+        if self.c % bv == 0 and all(c % bv == 0 for c in self.lin.values()):
+            return _mklin({k: c // bv for k, c in self.lin.items()}, self.c // bv), 0
+        e = self.e
         if bv > 0:
-            q = a / b               # z3 Euclidean div == floor for positive divisor
+            qe = e / z3.IntVal(bv)               # z3 Euclidean div == floor for a positive divisor
         else:
-            q = (-a) / (-b)
-        return q, a - b * q
+            qe = (-e) / z3.IntVal(-bv)
+        qe = z3.simplify(qe)
+        q = mk(qe)
+        return q, self - q * bv
+
+    @staticmethod
+    def _divmod(a, b):
+        "a, b: python int or SymInt (at least one SymInt)"
+        if isinstance(b, SymInt):
+            if ENGINE.nia:
+                ae, be = lz(a), b.e
+                if ENGINE.branch(be == 0):
+                    raise ZeroDivisionError('integer division or modulo by zero')
+                if ENGINE.branch(be > 0):
+                    q = ae / be
+                else:
+                    q = (-ae) / (-be)
+                return mk(q), mk(ae - be * q)
+            b = ENGINE.realize(b.e)
+            if not isinstance(a, SymInt):
+                return divmod(a, b)
+        return a._divmod_int(int(b))
 
     def __floordiv__(self, o):
-        oe = lift(o)
-        if oe is None:
+        if not isinstance(o, (int, SymInt)):
             return NotImplemented
-        return mk(self._divmod(self.e, oe)[0])
+        return self._divmod(self, o)[0]
 
     def __rfloordiv__(self, o):
-        oe = lift(o)
-        if oe is None:
+        if not isinstance(o, (int, SymInt)):
             return NotImplemented
-        return mk(self._divmod(oe, self.e)[0])
+        return self._divmod(o, self)[0]
 
     def __mod__(self, o):
-        oe = lift(o)
-        if oe is None:
+        if not isinstance(o, (int, SymInt)):
             return NotImplemented
-        return mk(self._divmod(self.e, oe)[1])
+        return self._divmod(self, o)[1]
 
     def __rmod__(self, o):
-        oe = lift(o)
-        if oe is None:
+        if not isinstance(o, (int, SymInt)):
             return NotImplemented
-        return mk(self._divmod(oe, self.e)[1])
+        return self._divmod(o, self)[1]
 
     def __divmod__(self, o):
-        oe = lift(o)
-        if oe is None:
+        if not isinstance(o, (int, SymInt)):
             return NotImplemented
-        q, r = self._divmod(self.e, oe)
-        return mk(q), mk(r)
+        return self._divmod(self, o)
 
     def __rdivmod__(self, o):
-        oe = lift(o)
-        if oe is None:
+        if not isinstance(o, (int, SymInt)):
             return NotImplemented
-        q, r = self._divmod(oe, self.e)
-        return mk(q), mk(r)
+        return self._divmod(o, self)
 
     def __truediv__(self, o):
         raise HarnessError('true division on a symbolic int (float)')
     __rtruediv__ = __truediv__
 
     def _cmp(self, o, op):
-        oe = lift(o)
-        if oe is None:
+        ol, oc = self._parts(o)
+        if ol is False:
             return NotImplemented
-        return mkb(op(self.e, oe))
+        d = self - o
+        if not isinstance(d, SymInt):
+            return op(d, 0)
+        # keep the constant on the right-hand side: "sum op k"
+        if d.c:
+            lhs = _mklin(d.lin, 0)
+            return mkb(op(lhs.e, z3.IntVal(-d.c)))
+        return mkb(op(d.e, z3.IntVal(0)))
 
     def __eq__(self, o):
         return self._cmp(o, lambda a, b: a == b)
